@@ -8,3 +8,16 @@ Definition run_c02 (i : (Z * Z * Z) * (Z * Z * Z)) : list Z :=
 (* poolfee validity as the model sees it: 1 valid, 0 invalid *)
 Definition run_c02_valid (i : Z * Z * Z) : list Z :=
   match i with (p, s, b) => [if poolfee_valid (mkFees p s b) then 1 else 0] end.
+
+(* cosmwasm-std primitives as transcribed in Prim.v: (op, a, b, c) *)
+Definition run_prim (i : Z * Z * Z * Z) : list Z :=
+  match i with (op, a, b, c) =>
+    obs_of (fun v => [v])
+      (if op =? 0 then dec_from_ratio P256 a b
+       else if op =? 1 then mul_dec P256 a b
+       else if op =? 2 then mul_dec P128 a b
+       else if op =? 3 then (if a =? 0 then Err E_OTHER else Ok (DEC * DEC / a))
+       else if op =? 4 then dec_mul P256 a b
+       else if op =? 5 then Ok (isqrt a)
+       else (if c =? 0 then Panic else let r := a * b / c in if r <? P128 then Ok r else Panic))
+  end.
